@@ -95,3 +95,32 @@ Definition Decode (bitmapSize : Z) (bm : list Z) : option (list Z) :=
   | None => None
   | Some paths => decode_loop bitmapSize bm paths
   end.
+
+(** the [-tags debug] build: PathToIndex runs its contracts (must.Be.OK) first, so Decode panics
+    as soon as one of them fires on a word produced by AllPaths *)
+Fixpoint decode_loop_debug (bitmapSize : Z) (bm : list Z) (paths : list Z) : option (list Z) :=
+  match paths with
+  | [] => Some []
+  | p :: rest =>
+      match PathToIndex_debug bitmapSize p with
+      | None => None
+      | Some idx =>
+          let wordI := sar32 idx 6 in
+          if i32 (zlen bm) >? wordI then
+            match nthZ bm wordI with
+            | None => None
+            | Some w =>
+                match decode_loop_debug bitmapSize bm rest with
+                | None => None
+                | Some r => Some (if Z.land w (shl64 1 (Z.land idx 63)) =? 0 then r else p :: r)
+                end
+            end
+          else decode_loop_debug bitmapSize bm rest
+      end
+  end.
+
+Definition Decode_debug (bitmapSize : Z) (bm : list Z) : option (list Z) :=
+  match AllPaths bitmapSize 0 (2 ^ 63) with
+  | None => None
+  | Some paths => decode_loop_debug bitmapSize bm paths
+  end.
